@@ -68,8 +68,10 @@ def real_cases(spec, acc):
         for enc in (None, 'utf-8'):
             for listed in (False, True):
                 for entry in ('expect', 'expect_exact', 'expect_list'):
+                    # (every other repetition with reads far smaller than what is waiting: the transports then hold
+                    # text of their own between calls)
                     case = {'real': True, 'kind': kind, 'enc': enc, 'listed': listed, 'entry': entry,
-                            'poll': bool(spec['rep'] % 2)}
+                            'poll': bool(spec['rep'] % 2), 'maxread': [2000, 3, 2000, 1][spec['rep'] % 4]}
                     acc.case()
                     try:
                         real_case(case, acc)
@@ -89,7 +91,7 @@ def call(child, entry, pats, timeout):
 
 def real_case(case, acc):
     kind, enc, listed, entry = case['kind'], case['enc'], case['listed'], case['entry']
-    kw = {'timeout': 5, 'encoding': enc}
+    kw = {'timeout': 5, 'encoding': enc, 'maxread': case.get('maxread', 2000)}
     if kind in ('pipe', 'fd', 'socket', 'pty') and case.get('poll'):
         kw['use_poll'] = True
     L = Link(kind, **kw)
@@ -105,7 +107,10 @@ def real_case(case, acc):
         L.peer_write(b'hello world')
         # 1. timeout 0 with an occurrence immediately readable
         time.sleep(0.05 if kind == 'popen' else 0.0)
-        r, exc, dt = outcome(c, lambda: call(c, entry, [T('zzz'), T('hello')] + ([TIMEOUT] if listed else []), 0))
+        # (with reads of 1-3 characters one immediate read cannot hold the occurrence: the clause is about timeout 0
+        # only when a single read can deliver it)
+        t_first = 0 if case.get('maxread', 2000) >= 100 else 5
+        r, exc, dt = outcome(c, lambda: call(c, entry, [T('zzz'), T('hello')] + ([TIMEOUT] if listed else []), t_first))
         if kind == 'popen' and (exc is not None or r != 1):
             # the reader thread may not have queued the data yet: not "immediately readable"
             acc.count('popen_timeout0_not_yet_queued')
@@ -136,8 +141,10 @@ def real_case(case, acc):
             judge(v, c, r, exc, TIMEOUT, listed, 1, T(' world'), 'peer connected, half a character arrived')
             L.peer_write(b'\xac')
             tail = ' world\u20actail'
-        # 4. EOF
-        L.peer_write(b'tail')
+        # 4. EOF (the last piece is many times the size of one read when maxread is tiny)
+        last = 'tail' + ('-more' * 12 if case.get('maxread', 2000) < 100 else '')
+        tail = tail[:-4] + last
+        L.peer_write(last.encode('ascii'))
         L.peer_close()
         pats = [T('zzz')] + ([TIMEOUT, EOF] if listed else [])
         r, exc, dt = outcome(c, lambda: call(c, entry, pats, 5))
